@@ -1351,6 +1351,56 @@ example :
       = [some 0, some 1, some 1, some 3, some 3, some 0] := by decide +kernel
 
 
+
+/-! ## 17. solver settings: an explicit setting wins, the default fills the rest, and no call sees another call's settings -/
+
+/-- the one default: `norm_order` is `inf` unless the call says otherwise, and an explicit value wins -/
+theorem effectiveSettings_norm_order (custom : Settings) :
+    (effectiveSettings (some custom)).lookup "norm_order" = some ((custom.lookup "norm_order").getD "inf") := by
+  simp [effectiveSettings, mergeSettings, defaultSolverSettings, Settings.lookup]
+  cases List.find? (fun p => p.1 == "norm_order") custom <;> rfl
+
+/-- every other key a call passes reaches the solver with the value the call gave it -/
+theorem effectiveSettings_custom (custom : Settings) (k : String) (hk : k ≠ "norm_order") :
+    (effectiveSettings (some custom)).lookup k = custom.lookup k := by
+  have hb : ("norm_order" == k) = false := by simpa using fun h => hk h.symm
+  simp only [effectiveSettings, mergeSettings, defaultSolverSettings, Settings.lookup, Option.getD_some, List.map_cons,
+    List.map_nil, List.cons_append, List.nil_append, List.find?_cons, hb]
+  congr 1
+  induction custom with
+  | nil => rfl
+  | cons p ps ih =>
+    obtain ⟨k', v'⟩ := p
+    by_cases h1 : k' = "norm_order"
+    · subst h1
+      simp only [List.filter_cons, List.find?_cons, beq_self_eq_true, Option.map_some, Option.isNone_some, hb]
+      exact ih
+    · have hb' : ("norm_order" == k') = false := by simpa using fun h => h1 h.symm
+      simp only [List.filter_cons, List.find?_cons, hb', List.find?_nil, Option.map_none, Option.isNone_none, if_true]
+      by_cases h2 : (k' == k) = true
+      · simp [h2]
+      · simp only [h2]; exact ih
+
+/-- what a call hands to the solver depends on that call's `solver_settings` only: calls with equal settings get equal
+effective settings wherever they stand in a history (no leak from earlier calls) -/
+theorem settingsHistory_get (calls : List (Option Settings)) (i : Nat) :
+    (settingsHistory calls)[i]? = (calls[i]?).map effectiveSettings := by simp [settingsHistory]
+
+theorem settingsHistory_local (calls calls' : List (Option Settings)) (i j : Nat) (c : Option Settings)
+    (h : calls[i]? = some c) (h' : calls'[j]? = some c) : (settingsHistory calls)[i]? = (settingsHistory calls')[j]? := by
+  rw [settingsHistory_get, settingsHistory_get, h, h']
+
+/-- a default-settings call after a loose-tolerance call gets the defaults (the in-place merge of seeded change C06-r7-2 would
+hand it `func_tolerance = 0.5`) -/
+example : settingsHistory [some [("func_tolerance", "0.5"), ("norm_order", "2")], none, some [("max_iterations", "7")]] =
+    [[("norm_order", "2"), ("func_tolerance", "0.5")], [("norm_order", "inf")], [("norm_order", "inf"), ("max_iterations", "7")]] := by
+  decide
+
+example : (effectiveSettings (some [("max_iterations", "7")])).lookup "norm_order" = some "inf"
+    ∧ (effectiveSettings (some [("max_iterations", "7")])).lookup "max_iterations" = some "7"
+    ∧ (effectiveSettings none).lookup "func_tolerance" = none := by decide
+
+
 end Glue
 
 end IrisVerif.C06
